@@ -69,6 +69,10 @@ const (
 	tIncludeMissing // INCLUDE nofile.jst
 	tParams         // Params with an object body (JSON-RPC)
 	tResult         // Result with an object body holding a reference to a user type (JSON-RPC)
+	tPathX          // Path {"x": 1}
+	tPathY          // Path {"y": "s"}
+	tGetXYZ         // GET /a/{x}/{y}/z : a method with its own, longer path
+	tURLParam2      // URL /a/{x}/{y}
 )
 
 var verifTplNames = []string{"JSIGHT", "INFO", "Title", "Version", "SERVER", "BaseUrl", "URL", "GET", "POST", "GET /p", "Request any",
@@ -203,6 +207,14 @@ func verifLineWith(t int, l string) string {
 		return "Path\n{\"id\": 1}"
 	case tRequestObj:
 		return "Request\n{\"r\": 1}"
+	case tPathX:
+		return "Path\n{\"x\": 1}"
+	case tPathY:
+		return "Path\n{\"y\": \"s\"}"
+	case tGetXYZ:
+		return "GET /a/{x}/{y}/z"
+	case tURLParam2:
+		return "URL /a/{x}/{y}"
 	case tParams:
 		return "Params\n{\"p\": 1}"
 	case tResult:
